@@ -91,6 +91,14 @@ impl PropCase for RoundTrip {
                     format!("{} (buffer {})", log_str(&got), b.name())
                 );
                 ctx.bump("runs:F1");
+                // the same through Decoder::from_buf over a buffer with stale content
+                let got = run_f1_from_buf(b, f);
+                ensure!(
+                    got == want,
+                    &format!("F1-from_buf/{}/{}", b.kind_class(), ename),
+                    want_s.clone(),
+                    format!("{} (buffer {})", log_str(&got), b.name())
+                );
             }
             // ---- F2
             let got = run_f2(f, h & 1 == 0);
